@@ -253,6 +253,50 @@ class Module:
         return L
 
 
+def check_directed(ctx):
+    """hand-written cases outside the generator's reach: documentation comments of a fixed-form file (flags C, c, *, d), and
+    signature help through `%` on a binding with a passed-object dummy argument"""
+    root = tempfile.mkdtemp(prefix="verif_c11_d_")
+    try:
+        fixed = ("      subroutine axpy(n, alpha, x)\nC> number of elements\n      integer n\n*> the factor\n      double precision alpha\n"
+                 "      double precision x(n) !< the vector\nc     an ordinary comment\n      x = alpha * x\n      end\n")
+        tb = ("module tbm\n implicit none\n type :: vec\n  real :: v\n contains\n  procedure :: scale => scale_impl\n  procedure, pass(self) :: axpy => axpy_impl\n end type vec\ncontains\n"
+              " subroutine scale_impl(self, factor, shift)\n  class(vec), intent(inout) :: self\n  real, intent(in) :: factor !< the factor\n  real, intent(in), optional :: shift\n"
+              "  self%v = self%v * factor\n end subroutine scale_impl\n subroutine axpy_impl(a, x, self)\n  real, intent(in) :: a\n  real, intent(in) :: x\n  class(vec), intent(inout) :: self\n"
+              "  self%v = a * x\n end subroutine axpy_impl\n subroutine driver()\n  type(vec) :: w\n  call w%scale(2.0, shift=1.0)\n  call w%axpy(0.5, 1.5)\n end subroutine driver\nend module tbm\n")
+        pf, pt = os.path.join(root, "axpy.f"), os.path.join(root, "tbm.f90")
+        for p, t in ((pf, fixed), (pt, tb)):
+            with open(p, "w") as f:
+                f.write(t)
+        srv, conn = impl.make_server(root, extra=["--nthreads", "1", "--use_signature_help"])
+        impl.did_open(srv, pf); impl.did_open(srv, pt)
+
+        def hover(path, line, ch):
+            r, _ = impl.request(srv, conn, "textDocument/hover", impl.pos_params(path, line, ch))
+            return r[2]["contents"]["value"] if r and r[0] == "r" and r[2] else ""
+        for (line, ch, name, doc) in ((2, 15, "n", "number of elements"), (4, 24, "alpha", "the factor"), (5, 24, "x", "the vector")):
+            v = hover(pf, line, ch)
+            ctx.count(("directed", "fixed-doc", name), True)
+            if doc not in v or (name == "n" and "the factor" in v):
+                ctx.report("C11:hover-doc", "fixed-form documentation comment of %s is not shown (or another one is): expected %r" % (name, doc),
+                           {"kind": "counterexample", "input": {"text": fixed, "entity": name, "line": line}, "implementation": v})
+        for (line, upto, labels, active, what) in ((23, "  call w%scale(2.0", ["factor", "shift"], 0, "first argument of a binding with the default passed object"),
+                                                   (23, "  call w%scale(2.0, shift=1.0", ["factor", "shift"], 1, "keyword argument of that binding"),
+                                                   (24, "  call w%axpy(0.5", ["a", "x"], 0, "first argument, PASS names the last dummy"),
+                                                   (24, "  call w%axpy(0.5, 1.5", ["a", "x"], 1, "second argument, PASS names the last dummy")):
+            r, _ = impl.request(srv, conn, "textDocument/signatureHelp", impl.pos_params(pt, line, len(upto)))
+            ctx.count(("directed", "bound-signature", upto), True)
+            got_labels, got_active = None, None
+            if r and r[0] == "r" and r[2]:
+                got_labels = [q["label"].split("=")[0].lower() for q in r[2]["signatures"][0]["parameters"]]
+                got_active = r[2].get("activeParameter")
+            if got_labels != labels or got_active != active:
+                ctx.report("C11:signature-bound", "signature help through %%: %s: parameters %s active %s, expected %s active %s" % (what, got_labels, got_active, labels, active),
+                           {"kind": "counterexample", "input": {"text": tb, "line": line, "character": len(upto)}, "implementation": {"parameters": got_labels, "active": got_active}})
+    finally:
+        shutil.rmtree(root, ignore_errors=True)
+
+
 def check_oracle(ctx, n):
     coq = ctx.coq(IMPORTS)
     exprs, meta = [], []
@@ -439,6 +483,7 @@ def run(ctx):
     q = ctx.quick()
     check_doc_machine(ctx, 40 if q else 800)
     check_oracle(ctx, 25 if q else 500)
+    check_directed(ctx)
 
 
 def replay(ctx, path):
